@@ -269,13 +269,15 @@ impl SimScenario {
                 if nodes.iter().filter(|m| self.sys.get_node(m).unwrap().process_names().contains(&p)).count() != 1 {
                     continue;
                 }
-                api &= self.sys.proc_node_name(&p) == *n
+                // (first whether the System knows the process at all: the other accessors index by its name)
+                api = api
+                    && self.sys.process_names().contains(&p)
+                    && self.sys.proc_node_name(&p) == *n
                     && self.sys.proc_node_is_crashed(&p) == node.is_crashed()
                     && self.sys.sent_message_count(&p) == node.sent_message_count(&p)
                     && self.sys.received_message_count(&p) == node.received_message_count(&p)
                     && self.sys.local_outbox(&p) == node.local_outbox(&p)
-                    && self.sys.event_log(&p).len() == node.event_log(&p).len()
-                    && self.sys.process_names().contains(&p);
+                    && self.sys.event_log(&p).len() == node.event_log(&p).len();
             }
             node_lines.push(format!(
                 "Nd {} crashed={} api={}",
